@@ -8,6 +8,11 @@
 
 extern "C" int omp_get_num_procs(void) noexcept { return 1; }
 extern "C" int omp_get_max_threads(void) noexcept { return 1; }
+extern "C" int omp_get_thread_num(void) noexcept { return 0; }      // pragmas are ignored in this build: every parallel region runs as a team of one
+extern "C" int omp_get_num_threads(void) noexcept { return 1; }
+extern "C" int omp_in_parallel(void) noexcept { return 0; }
+extern "C" void omp_set_num_threads(int) noexcept {}
+extern "C" int omp_get_thread_limit(void) noexcept { return 1; }
 
 using mc::Run;
 
@@ -25,9 +30,12 @@ struct Cn {
 // ---- value alphabets ------------------------------------------------------------------------------------------------------
 template<typename V> struct Vals;
 template<> struct Vals<uint32_t> { static uint32_t get(int i) { return i ? 2u : 1u; } static const char *name() { return "u32"; } };
-template<> struct Vals<uint64_t> { static uint64_t get(int i) { return i ? 7ull : (1ull << 40); } static const char *name() { return "u64"; } };
+template<> struct Vals<uint64_t> { static uint64_t get(int i) { return i ? 0xFFFFFFFFull : (1ull << 40); } static const char *name() { return "u64"; } };   // the largest 32-bit key value is an ordinary 64-bit mapped value
+template<> struct Vals<int32_t> { static int32_t get(int i) { return i ? -1 : 5; } static const char *name() { return "i32"; } };   // -1 is an ordinary value
 static uint32_t g_cells[2] = {111, 222};
 template<> struct Vals<uint32_t *> { static uint32_t *get(int i) { return &g_cells[i]; } static const char *name() { return "ptr"; } };
+template<> struct Vals<uint8_t> { static uint8_t get(int i) { return i ? uint8_t(254) : uint8_t(0); } static const char *name() { return "u8"; } };   // 254 is next to the reserved 255
+template<> struct Vals<double> { static double get(int i) { return i ? std::numeric_limits<double>::lowest() : 0.5; } static const char *name() { return "f64"; } };
 template<> struct Vals<std::string> { static std::string get(int i) { return i ? "b" : "a"; } static const char *name() { return "str"; } };
 
 struct DynCfg { uint8_t base, buffer_level, index_level; };
@@ -405,12 +413,14 @@ struct Explorer {
     // interleaved, and overwrites followed by erases; a second round re-inserts the erased keys and erases the fresh ones. The oracle
     // battery runs after every operation. `upto` (replay) stops after that many operations.
     static std::vector<K> irregular_keys(int N) {
-        std::vector<K> v; K cur = 1000;
-        for (int i = 0; i < N; ++i) { cur = K(cur + 2 + ((uint32_t(i) * 2654435761u >> 7) % 9) * ((i % 17 == 0) ? 40 : 1)); v.push_back(cur); }
+        std::vector<K> v; uint64_t cur = 1000;
+        for (int i = 0; i < N; ++i) { cur = cur + 2 + ((uint32_t(i) * 2654435761u >> 7) % 9) * ((i % 17 == 0) ? 40 : 1); v.push_back(K(cur)); }
+        if (cur + 8 >= uint64_t(std::numeric_limits<K>::max())) v.clear();   // the member does not exist for this key type
         return v;
     }
     void large(int N, int variant, int upto = -1) {
         auto base_keys = irregular_keys(N);
+        if (base_keys.empty()) return;
         std::vector<std::pair<K, int>> init;
         for (int i = 0; i < N; ++i) init.emplace_back(base_keys[i], i % 2);
         size_t B = 0, pw = 1; for (int j = 0; j <= cfg.buffer_level; ++j) { B += pw; pw *= cfg.base; }
@@ -571,7 +581,11 @@ static std::vector<TypeEntry> types() {
         TYPE("u32/str/pgm<16,4>", 0, uint32_t, std::string, pgm::PGMIndex<uint32_t, 16>),
         TYPE("u64/u64/pgm<1,2>", 1, uint64_t, uint64_t, pgm::PGMIndex<uint64_t, 1, 2>),
         TYPE("i64/u32/pgm<4,4>", 1, int64_t, uint32_t, pgm::PGMIndex<int64_t, 4, 4>),
-        TYPE("u32/u32/pgm<1,4>", 2, uint32_t, uint32_t, pgm::PGMIndex<uint32_t, 1, 4>),   // tier 2: large scripted family only (Epsilon < EpsilonRecursive)
+        TYPE("u32/u32/pgm<1,4>", 2, uint32_t, uint32_t, pgm::PGMIndex<uint32_t, 1, 4>),
+        TYPE("u32/u64/pgm<1,1>", 3, uint32_t, uint64_t, pgm::PGMIndex<uint32_t, 1, 1>),
+        TYPE("i32/i32/pgm<1,1>", 3, int32_t, int32_t, pgm::PGMIndex<int32_t, 1, 1>),
+        TYPE("u16/u8/pgm<1,1>", 3, uint16_t, uint8_t, pgm::PGMIndex<uint16_t, 1, 1>),      // tier 3: one BFS from empty, one round-structured search, the large scripted family
+        TYPE("i64/f64/pgm<2,1>", 3, int64_t, double, pgm::PGMIndex<int64_t, 2, 1>),   // tier 2: large scripted family only (Epsilon < EpsilonRecursive)
     };
 }
 
@@ -620,13 +634,26 @@ int main(int argc, char **argv) {
         {   // large scripted family: (cfg, N) so that the bulk-loaded level keeps room for the flushes
             struct LargeSpec { DynCfg cfg; int N; };
             std::vector<LargeSpec> ls = {{{8, 2, 3}, 300}, {{16, 1, 2}, 200}, {{8, 1, 2}, 45}, {{4, 2, 3}, 40}, {{8, 2, 0}, 300}};
-            if (thorough) { ls.push_back({{16, 2, 3}, 3000}); ls.push_back({{8, 2, 3}, 420}); ls.push_back({{32, 1, 2}, 900}); }
+            ls.push_back({{2, 2, 3}, 9000});   // base 2: the bulk-loaded level is number 14, flushes cascade through many small levels below it
+            if (thorough) { ls.push_back({{16, 2, 3}, 3000}); ls.push_back({{8, 2, 3}, 420}); ls.push_back({{32, 1, 2}, 900}); ls.push_back({{2, 1, 3}, 140000}); }
 #ifdef VERIF_ASAN
             if (!thorough) ls.resize(3);
 #endif
             for (auto &l : ls) for (int v = 0; v < 6; ++v) { Task tk{int(t), 0, 0, 97, l.cfg, 0}; tk.large_n = l.N; tk.variant = v; tasks.push_back(tk); }
         }
         if (ty[t].tier == 2) continue;
+        // buffers of 2^15 .. 2^17 entries (buffer_level 14..16 with base 2): the number of the pseudo level of end() (levels.size() - 1)
+        // meets the numbers of real levels; every small bulk-load, depth 4
+        if (ty[t].tier == 0 || thorough) for (uint8_t bl : {uint8_t(14), uint8_t(15), uint8_t(16)}) {
+            int ni = ty[t].num_inits(0);
+            for (int i = 0; i < ni; i += (thorough ? 1 : 3)) tasks.push_back(Task{int(t), 0, i, thorough ? 5 : 4, DynCfg{2, bl, 0}, size_t(200000)});
+        }
+        if (ty[t].tier == 3) {   // further mapped-value types (8-bit values next to the reserved one, floating values): a thinner slice
+            tasks.push_back(Task{int(t), 0, 0, thorough ? Dt - 2 : Dq - 2, DynCfg{2, 1, 2}, thorough ? size_t(1500000) : size_t(400000)});
+            tasks.push_back(Task{int(t), 0, 0, thorough ? Dt - 3 : Dq - 3, DynCfg{4, 1, 2}, thorough ? size_t(1500000) : size_t(400000)});
+            { Task tk{int(t), 0, 0, 99, DynCfg{2, 1, 2}, thorough ? size_t(2000000) : size_t(600000)}; tk.rounds = thorough ? 5 : 3; tk.actions = 3; tasks.push_back(tk); }
+            continue;
+        }
         for (size_t c = 0; c < cfgs_q.size(); ++c) {
             add_cfg(cfgs_q[c], int(t), thorough ? Dt : Dq, c == 0 || thorough, 0);      // 4 colliding keys
             if (c <= 1 || thorough) add_cfg(cfgs_q[c], int(t), (thorough ? Dt : Dq) - 1, false, 1);   // 5 keys
@@ -673,7 +700,7 @@ int main(int argc, char **argv) {
     ev.states_counter = "distinct_canonical_states"; ev.transitions_counter = "transitions_executed"; ev.nontrivial_counter = "states_with_data_below_the_buffer";
     ev.rule = "(a) breadth-first search over all histories of insert_or_assign(k,v)/erase(k), k from a key set of 4-7 colliding keys (adjacent keys, gaps, the extremes of the key type), v from 2 values, on the real DynamicPGMIndex copied per transition; "
               "initial states: empty, every bulk-load of 1..3 sorted pairs with repeated keys, bulk-loads of 9 and 12 pairs landing two levels below the buffer, and non-initial starts reached by a fixed prefix of 11/15/19 (base 2) or 6/12 (base 4, leaving a non-empty last level with room) round-robin inserts (so that the next merges cascade through three and four levels), plus round-structured search (one action out of {a,b,tombstone} per key for buffer_max_size+1 keys per round, so that every round flushes the buffer once; 2-7 rounds) which reaches merges into an existing deepest level where tombstones are dropped, plus size sweeps (bulk-load of 0..70 distinct keys followed by 40 inserts of fresh distinct keys, three placements) which hit every exact fit of a flush into the free room of a level; configurations (base,buffer_level,index_level) with a 3-entry buffer and 4/8/16-entry levels so that depth-" + std::to_string(thorough ? Dt : Dq) +
-              " histories cascade through three levels and small levels own a PGM-index; key/value/index types arithmetic, pointer and std::string values. A state is a distinct canonical form (used_levels + per-level list of key/value-or-tombstone); after every transition the property's oracle runs against std::map" +
+              " histories cascade through three levels and small levels own a PGM-index; key/value/index types arithmetic (8-bit values next to the reserved one, floating values), pointer and std::string values. A state is a distinct canonical form (used_levels + per-level list of key/value-or-tombstone); after every transition the property's oracle runs against std::map" +
               (prop == 5 ? " (find, count, lower_bound for every alphabet key and its neighbours)" : prop == 6 ? " (iteration from begin() with ++it and with it++ and from every lower_bound to end(), range() for every lo<=hi of the query alphabet, size(), empty())" : " (sortedness, capacities, empty levels beyond used_levels, per-level index built over exactly the level's keys and answering the search contract, emptied levels' indexes reset)") +
               ". (b) large scripted family: bulk-load of 40..300 (thorough: up to 3000) irregularly spaced keys into a level that keeps room, then six scripts of erases of stored keys and inserts of fresh neighbours sized so that every flush merges into that level (size-preserving, interleaved, overwrite-then-erase; second round with the inverse operations), all oracles after every operation, also with a PGMIndex<.,1,4> (Epsilon < EpsilonRecursive) inside the levels. Non-trivial: the state holds data in a level below the buffer.";
     ev.bounds = "depth " + std::to_string(thorough ? Dt : Dq) + " from empty (4 keys), depth-1 (5 keys), depth-2 from small bulk-loads, deep starts depth " + std::to_string(thorough ? 7 : 5) + "; " + std::to_string(tasks.size()) + " (type,config,initial state) explorations";
